@@ -50,6 +50,7 @@ type Event struct {
 	Idx      int
 	InDefer  bool
 	Invoke   bool
+	Ctx      *Term // raw (uncollapsed) context argument, if any
 }
 
 func (e *Event) Ret(i int) *Term {
@@ -196,11 +197,12 @@ func (s *state) addFact(f Fact) bool {
 }
 
 type explorer struct {
-	P     *Program
-	cfg   ExploreConfig
-	out   *Exploration
-	work  []*state
-	steps int
+	P      *Program
+	cfg    ExploreConfig
+	out    *Exploration
+	work   []*state
+	steps  int
+	curCtx *Term
 }
 
 func defaultInline(fn *ssa.Function) bool {
@@ -261,9 +263,6 @@ func (P *Program) Explore(fn *ssa.Function, cfg ExploreConfig) *Exploration {
 }
 
 func paramTerm(i int, p *ssa.Parameter) *Term {
-	if isContext(p.Type()) {
-		return tCtx
-	}
 	return &Term{Op: "param", Name: fmt.Sprintf("%d:%s", i, p.Name()), Type: p.Type()}
 }
 
@@ -361,7 +360,7 @@ func (x *explorer) exec(st *state) {
 		case *ssa.Return:
 			var rets []*Term
 			for _, r := range ins.Results {
-				rets = append(rets, x.termOf(st, fr, r))
+				rets = append(rets, x.rawOf(st, fr, r))
 			}
 			if len(st.stack) == 1 {
 				x.emit(st, "return", rets, ins.Pos())
@@ -405,7 +404,7 @@ func (x *explorer) exec(st *state) {
 				d.callee = x.termOf(st, fr, ins.Call.Value)
 			}
 			for _, a := range ins.Call.Args {
-				d.args = append(d.args, x.termOf(st, fr, a))
+				d.args = append(d.args, x.rawOf(st, fr, a))
 			}
 			fr.defers = append(fr.defers, d)
 			fr.pc++
@@ -422,7 +421,7 @@ func (x *explorer) exec(st *state) {
 			continue
 		case *ssa.Store:
 			addr := x.termOf(st, fr, ins.Addr)
-			val := x.termOf(st, fr, ins.Val)
+			val := x.rawOf(st, fr, ins.Val)
 			st.mem[addr.Key()] = val
 			if addr.Op != "cell" {
 				kind := "store"
@@ -481,7 +480,7 @@ func (x *explorer) jump(st *state, fr *frame, to *ssa.BasicBlock) bool {
 		}
 		var v *Term
 		if idx >= 0 {
-			v = x.termOf(st, fr, phi.Edges[idx])
+			v = x.rawOf(st, fr, phi.Edges[idx])
 		} else {
 			v = mk("unknown", "phi")
 		}
@@ -511,13 +510,27 @@ func (x *explorer) event(st *state, fr *frame, e *Event) *Event {
 	e.NFacts = len(st.facts)
 	e.Idx = len(st.events)
 	e.InDefer = fr.inDefer
+	if e.Kind == "call" || e.Kind == "pure" || e.Kind == "inline" {
+		e.Ctx = x.curCtx
+	}
 	st.events = append(st.events, e)
 	return e
 }
 
 // ------------------------------------------------------------------ values
 
+// termOf is the rule-facing abstraction of a value: every context.Context
+// collapses to the single term ctx (so that pure calls taking a context keep
+// one identity). rawOf keeps the context's provenance (needed to tell the
+// transaction context from the request context).
 func (x *explorer) termOf(st *state, fr *frame, v ssa.Value) *Term {
+	if v != nil && isContext(v.Type()) {
+		return tCtx
+	}
+	return x.rawOf(st, fr, v)
+}
+
+func (x *explorer) rawOf(st *state, fr *frame, v ssa.Value) *Term {
 	if v == nil {
 		return mk("unknown", "nilvalue")
 	}
@@ -528,9 +541,6 @@ func (x *explorer) termOf(st *state, fr *frame, v ssa.Value) *Term {
 		for i, p := range fr.fn.Params {
 			if p == v {
 				if i < len(fr.params) {
-					if isContext(v.Type()) {
-						return tCtx
-					}
 					return fr.params[i]
 				}
 			}
@@ -551,9 +561,6 @@ func (x *explorer) termOf(st *state, fr *frame, v ssa.Value) *Term {
 		return &Term{Op: "builtin", Name: v.Name()}
 	}
 	if t, ok := fr.env[v]; ok {
-		if isContext(v.Type()) {
-			return tCtx
-		}
 		return t
 	}
 	return mk("unknown", "undef:"+v.Name())
@@ -621,12 +628,6 @@ func zeroOf(t types.Type) *Term {
 }
 
 func (x *explorer) eval(st *state, fr *frame, v ssa.Value) *Term {
-	if isContext(v.Type()) {
-		// still evaluate calls for their events (handled in doCall); plain values collapse
-		if _, isCall := v.(*ssa.Call); !isCall {
-			return tCtx
-		}
-	}
 	switch v := v.(type) {
 	case *ssa.Alloc:
 		st.nNew++
@@ -673,26 +674,26 @@ func (x *explorer) eval(st *state, fr *frame, v ssa.Value) *Term {
 		}
 		return mk("un", v.Op.String(), a)
 	case *ssa.ChangeType:
-		return x.termOf(st, fr, v.X)
+		return x.rawOf(st, fr, v.X)
 	case *ssa.Convert:
-		return x.termOf(st, fr, v.X)
+		return x.rawOf(st, fr, v.X)
 	case *ssa.MultiConvert:
-		return x.termOf(st, fr, v.X)
+		return x.rawOf(st, fr, v.X)
 	case *ssa.ChangeInterface:
-		return x.termOf(st, fr, v.X)
+		return x.rawOf(st, fr, v.X)
 	case *ssa.MakeInterface:
-		return x.termOf(st, fr, v.X)
+		return x.rawOf(st, fr, v.X)
 	case *ssa.SliceToArrayPointer:
-		return x.termOf(st, fr, v.X)
+		return x.rawOf(st, fr, v.X)
 	case *ssa.TypeAssert:
-		a := x.termOf(st, fr, v.X)
+		a := x.rawOf(st, fr, v.X)
 		if v.CommaOk {
 			ok := call("istype:"+typeShort(v.AssertedType), a)
 			return &Term{Op: "tuple", Args: []*Term{a, ok}}
 		}
 		return a
 	case *ssa.Extract:
-		return ret(v.Index, x.termOf(st, fr, v.Tuple))
+		return ret(v.Index, x.rawOf(st, fr, v.Tuple))
 	case *ssa.Field:
 		a := x.termOf(st, fr, v.X)
 		return field(a, fieldName(v.X.Type(), v.Field))
@@ -771,7 +772,7 @@ func (x *explorer) eval(st *state, fr *frame, v ssa.Value) *Term {
 		fn := v.Fn.(*ssa.Function)
 		var bs []*Term
 		for _, b := range v.Bindings {
-			bs = append(bs, x.termOf(st, fr, b))
+			bs = append(bs, x.rawOf(st, fr, b))
 		}
 		return &Term{Op: "closure", Name: short(fn.String()), Args: bs, Fn: fn}
 	case *ssa.Range:
@@ -814,8 +815,35 @@ func fieldName(t types.Type, i int) string {
 	return fmt.Sprintf("f%d", i)
 }
 
-func (x *explorer) load(st *state, addr *Term, typ types.Type) *Term {
+// known returns the value memory holds for an address: a direct binding, or a
+// projection of a whole-struct/array store into a containing cell.
+func (x *explorer) known(st *state, addr *Term) (*Term, bool) {
 	if v, ok := st.mem[addr.Key()]; ok {
+		return v, true
+	}
+	switch addr.Op {
+	case "addr":
+		if bv, ok := x.known(st, addr.Args[0]); ok {
+			if bv.Op == "const" && strings.HasPrefix(bv.Name, "zero:") {
+				return nil, false
+			}
+			return &Term{Op: "field", Name: addr.Name, Args: []*Term{bv}}, true
+		}
+	case "iaddr":
+		if bv, ok := x.known(st, addr.Args[0]); ok {
+			if bv.Op == "lit" {
+				if k, ok := addr.Args[1].IntConst(); ok && k >= 0 && int(k) < len(bv.Args) {
+					return bv.Args[k], true
+				}
+			}
+			return mk("idx", "", bv, addr.Args[1]), true
+		}
+	}
+	return nil, false
+}
+
+func (x *explorer) load(st *state, addr *Term, typ types.Type) *Term {
+	if v, ok := x.known(st, addr); ok {
 		return v
 	}
 	switch addr.Op {
@@ -823,7 +851,7 @@ func (x *explorer) load(st *state, addr *Term, typ types.Type) *Term {
 		return &Term{Op: "global", Name: addr.Name, Type: typ}
 	case "addr":
 		base := addr.Args[0]
-		if base.Op == "cell" || base.Op == "make" {
+		if r := addrRoot(addr); (r.Op == "cell" || r.Op == "make") && base.Op != "field" && base.Op != "idx" {
 			if z := zeroOf(typ); z != nil {
 				return z
 			}
@@ -1078,10 +1106,24 @@ func (x *explorer) doCall(st *state, fr *frame, c *ssa.CallCommon, bind *ssa.Cal
 		calleeT = d.callee
 	} else {
 		for _, a := range c.Args {
-			args = append(args, x.termOf(st, fr, a))
+			args = append(args, x.rawOf(st, fr, a))
 		}
-		calleeT = x.termOf(st, fr, c.Value)
+		calleeT = x.rawOf(st, fr, c.Value)
 	}
+	// collapsed view (contexts -> ctx) for opaque terms and events; the raw
+	// context argument is kept on the event
+	var ctxRaw *Term
+	cargs := make([]*Term, len(args))
+	for i, a := range args {
+		cargs[i] = a
+		if i < len(c.Args) && isContext(c.Args[i].Type()) {
+			if ctxRaw == nil {
+				ctxRaw = a
+			}
+			cargs[i] = tCtx
+		}
+	}
+	x.curCtx = ctxRaw
 	finish := func(res *Term) {
 		if bind != nil {
 			fr.env[bind] = res
@@ -1098,7 +1140,7 @@ func (x *explorer) doCall(st *state, fr *frame, c *ssa.CallCommon, bind *ssa.Cal
 
 	if c.IsInvoke() {
 		name := "." + c.Method.Name()
-		res := x.opaque(st, fr, name, c.Method, nil, calleeT, args, instr, true, c.Signature())
+		res := x.opaque(st, fr, name, c.Method, nil, calleeT, cargs, instr, true, c.Signature())
 		finish(res)
 		return
 	}
@@ -1109,7 +1151,7 @@ func (x *explorer) doCall(st *state, fr *frame, c *ssa.CallCommon, bind *ssa.Cal
 	case *ssa.Function:
 		static = v
 	case *ssa.Builtin:
-		finish(x.builtin(st, fr, v.Name(), args, instr))
+		finish(x.builtin(st, fr, v.Name(), cargs, instr))
 		return
 	default:
 		if calleeT.Op == "closure" || calleeT.Op == "fn" {
@@ -1119,8 +1161,8 @@ func (x *explorer) doCall(st *state, fr *frame, c *ssa.CallCommon, bind *ssa.Cal
 	}
 	if static == nil {
 		// dynamic call of a function value: pure application term
-		res := call("apply", append([]*Term{calleeT}, args...)...)
-		x.event(st, fr, &Event{Kind: "pure", Name: "apply", Recv: calleeT, Args: args, Result: res, Instr: instr})
+		res := call("apply", append([]*Term{calleeT}, cargs...)...)
+		x.event(st, fr, &Event{Kind: "pure", Name: "apply", Recv: calleeT, Args: cargs, Result: res, Instr: instr})
 		finish(res)
 		return
 	}
@@ -1141,20 +1183,20 @@ func (x *explorer) doCall(st *state, fr *frame, c *ssa.CallCommon, bind *ssa.Cal
 			nf.isDefer = true
 		}
 		nf.callName = funcShortName(static)
-		x.event(st, fr, &Event{Kind: "inline", Name: funcShortName(static), StaticFn: static, Args: args, Instr: instr})
+		x.event(st, fr, &Event{Kind: "inline", Name: funcShortName(static), StaticFn: static, Args: cargs, Instr: instr})
 		st.stack = append(st.stack, nf)
 		return
 	}
 	name := funcShortName(static)
 	var recv *Term
-	rest := args
+	rest := cargs
 	var obj *types.Func
 	if o, ok := static.Object().(*types.Func); ok {
 		obj = o
 	}
-	if static.Signature.Recv() != nil && len(args) > 0 {
-		recv = args[0]
-		rest = args[1:]
+	if static.Signature.Recv() != nil && len(cargs) > 0 {
+		recv = cargs[0]
+		rest = cargs[1:]
 	}
 	res := x.opaque(st, fr, name, obj, static, recv, rest, instr, false, static.Signature)
 	finish(res)
